@@ -204,6 +204,10 @@ func ruleS3(c *Ctx) {
 	for _, pr := range []pair{{"processNoParam", "handleNoParamOpcode"}, {"processRET", "handleRET"}, {"processINT", "handleINT"}} {
 		f := c.L.SSAFunc("internal/pass1", pr.p1)
 		g := c.L.SSAFunc("internal/codegen", pr.gen)
+		if g == nil && pr.gen == "handleNoParamOpcode" {
+			// the thin dispatcher may be inlined into its caller: the emitter proper is what counts
+			g = c.L.SSAFunc("internal/codegen", "GenerateX86NoParam")
+		}
 		if f == nil || g == nil {
 			c.anchorMissing("S3", pr.p1+" / "+pr.gen)
 			continue
